@@ -48,6 +48,10 @@ type Profile struct {
 	// towards nodes that lag behind in a lower view.  Nothing is dropped.  Makes forks that need an equivocating primary of
 	// a view > 0 and a lagging victim a matter of thousands of runs instead of millions.
 	EquivFocus bool
+	// HoldCommits: commits travel slowly except towards one favoured node, and timers fire often: the favoured node
+	// decides early on M commits while the others, locked by their own commit, are pressed to change view for a long
+	// time - what a broken commit lock turns into a fork without any faulty validator (seeded changes C01k, C01j).
+	HoldCommits bool
 }
 
 var profiles = []Profile{
@@ -59,6 +63,7 @@ var profiles = []Profile{
 	{Name: "byzheavy", W: [numActs]int{aDeliver: 50, aDrop: 2, aDup: 4, aTimeout: 8, aStale: 1, aTick: 3, aNewTx: 2, aSupplyTx: 8, aBadTx: 1, aReset: 6, aSync: 2, aByz: 25, aReplay: 4}, PromptReset: 60, NewestBias: 40},
 	{Name: "latereset", W: [numActs]int{aDeliver: 60, aDrop: 1, aDup: 4, aTimeout: 4, aStale: 1, aTick: 3, aNewTx: 2, aSupplyTx: 8, aBadTx: 1, aReset: 1, aSync: 1, aByz: 6, aReplay: 6}, PromptReset: 0, NewestBias: 60},
 	{Name: "equivfocus", W: [numActs]int{aDeliver: 70, aDup: 2, aTimeout: 7, aTick: 2, aNewTx: 1, aSupplyTx: 6, aReset: 6, aByz: 12, aReplay: 1}, PromptReset: 60, NewestBias: 30, EquivFocus: true},
+	{Name: "lockpressure", W: [numActs]int{aDeliver: 55, aDup: 2, aTimeout: 22, aStale: 1, aTick: 3, aNewTx: 1, aSupplyTx: 6, aReset: 5, aSync: 1, aByz: 4, aReplay: 2}, PromptReset: 50, NewestBias: 30, HoldCommits: true},
 	{Name: "crashy", W: [numActs]int{aDeliver: 55, aDrop: 2, aDup: 3, aTimeout: 10, aStale: 1, aTick: 3, aNewTx: 2, aSupplyTx: 8, aBadTx: 1, aReset: 6, aSync: 3, aCrash: 2, aRestart: 4, aByz: 6, aReplay: 2}, PromptReset: 60, NewestBias: 40},
 }
 
@@ -89,6 +94,7 @@ type Async struct {
 	P        Profile
 	fav      int
 	flipped  bool
+	cleared  bool
 	restarts int
 	focusDone map[[3]uint32]bool
 }
@@ -290,6 +296,23 @@ func (a *Async) step() {
 			a.flipped = true
 			w.Stat("watch_flag_set_mid_view")
 			w.act("node %d sets its watch-only flag at (%d,%d)", n.ID, n.D.BlockIndex, n.D.ViewNumber)
+		}
+	}
+	if !a.cleared && a.pct("flagclear", 2) {
+		// the converse: the operator re-enables a validator that has been running with the flag set - between two
+		// calls, in the middle of a view; from the next call on it is an ordinary validator (seeded change C12k)
+		var cand []*Node
+		for _, n := range w.Live() {
+			if n.WatchFlag && !n.Faulty && n.D.Validators != nil && n.D.MyIndex >= 0 && !n.D.BlockSent() {
+				cand = append(cand, n)
+			}
+		}
+		if len(cand) > 0 {
+			n := cand[a.r("clearnode", len(cand))]
+			n.WatchFlag = false
+			a.cleared = true
+			w.Stat("watch_flag_cleared_mid_view")
+			w.act("node %d clears its watch-only flag at (%d,%d)", n.ID, n.D.BlockIndex, n.D.ViewNumber)
 		}
 	}
 	total := 0
@@ -494,6 +517,33 @@ func (a *Async) step() {
 		p := w.Sent[a.r("sent", len(w.Sent))]
 		live := w.Live()
 		n := live[a.r("node", len(live))]
+		if d := n.D; d.Validators != nil && a.pct("staleindex", 25) {
+			// a payload of the NEXT height under a validator index that exists now but not in that height's (shorter)
+			// list: the sender's index of this height.  Admissible for caching now - the index can only be checked
+			// against the list the node has - and inadmissible when the node gets there (seeded change C11k).
+			h := d.BlockIndex
+			if cur, next := w.Cfg.Validators(h), w.Cfg.Validators(h+1); len(next) < len(cur) {
+				idx := len(next) + a.r("idx", len(cur)-len(next))
+				var body any
+				t := []dbft.MessageType{dbft.ChangeViewType, dbft.CommitType, dbft.PrepareResponseType, dbft.RecoveryRequestType}[a.r("ptype", 4)]
+				switch t {
+				case dbft.ChangeViewType:
+					body = &vt.ChangeView{NewView: 1, Ts: 1}
+				case dbft.CommitType:
+					body = &vt.Commit{Sig: vt.Mac("garbage", a.r("x", 50), nil)}
+				case dbft.PrepareResponseType:
+					body = &vt.PrepareResponse{}
+				default:
+					body = &vt.RecoveryRequest{Ts: 1}
+				}
+				sp := vt.New(t, h+1, 0, uint16(idx), cur[idx], body)
+				w.Stat("next_height_payload_under_vanishing_index")
+				w.act("stale index ->%d %s", n.ID, sp.Summary())
+				n.Receive(sp)
+				a.afterCall(n)
+				break
+			}
+		}
 		if p.Author != n.ID {
 			w.Stat("replay")
 			w.act("replay ->%d %s", n.ID, p.Summary())
@@ -519,6 +569,23 @@ func (a *Async) pickFlight() int {
 			if m.To == a.fav {
 				c = append(c, i)
 				if len(c) >= 16 {
+					break
+				}
+			}
+		}
+		if len(c) > 0 {
+			return c[a.r("flight", len(c))]
+		}
+	}
+	if a.P.HoldCommits && a.pct("holdcommits", 85) {
+		// (proposals are slow too, half of the time: backups that have already asked for a view change when the
+		// proposal and the responses finally arrive still prepare and commit in the old view)
+		holdProp := a.pct("holdproposal", 50)
+		var c []int
+		for i, m := range w.Flight {
+			if (m.P.T != dbft.CommitType || m.To == a.fav) && (m.P.T != dbft.PrepareRequestType || !holdProp) {
+				c = append(c, i)
+				if len(c) >= 32 {
 					break
 				}
 			}
@@ -695,6 +762,9 @@ func (a *Async) equivocate(j, idx int, h uint32, v byte, honest []*Node) {
 		w.Stat("byz_equivocation_with_lagging_nodes")
 	}
 	mask := 1 + a.r("eqmask", (1<<uint(min(nfront, 8)))-2+min(len(at)-nfront, 1))
+	if len(at) > nfront && a.pct("eqallfront", 60) {
+		mask = 1<<uint(min(nfront, 8)) - 1 // with F Byzantine validators a quorum for A usually needs every node of the front
+	}
 	if nfront > 8 {
 		nfront = 8
 	}
